@@ -9,11 +9,12 @@ class C04(Property):
     lean_module = "RosuModel.Props.C04All"   # imports Props/C04Slider.lean, Props/C04Timing.lean (which import Props/C04.lean), Props/C04File.lean, Props/C04Toy.lean, Props/C04Decoded.lean and Props/C04Ieee.lean; all in namespace Rosu.C04
     theorem_modules = ['RosuModel.Props.C04All', 'RosuModel.Props.C04Ieee', 'RosuModel.Props.C04DecodedIeee', 'RosuModel.Props.C04DecodedObjects', 'RosuModel.Props.C04DecodedObjectsToy',
                        'RosuModel.Props.C04DecodedObjectsIeee', ('RosuModel.Lemmas.DecodedObjInv', 'Rosu.DecodedObj'),
-                       'RosuModel.Props.C04DecodedPaths', 'RosuModel.Props.C04DecodedPathsIeee', ('RosuModel.Lemmas.DecodedPathInv', 'Rosu.DecodedPath'),
+                       'RosuModel.Props.C04DecodedObjectsIeee2', 'RosuModel.Props.C04DecodedPaths', 'RosuModel.Props.C04DecodedPathsIeee', ('RosuModel.Lemmas.DecodedPathInv', 'Rosu.DecodedPath'),
                        'RosuModel.Props.C04DecodedTiming', 'RosuModel.Props.C04DecodedTimingToy', 'RosuModel.Props.C04DecodedTimingIeee']   # files whose top-level theorems are all audited
     namespace = "Rosu.C04"
     design_ref = "5.4"
     required_theorems = [
+        "ctrlLaws_float", "duration_drifts_float", "end_time_over_limit_float", "durLawsOn_float", "hitobjects_block_accepted_decoded_ieee", "decoded_spinners_representable_ieee_int",
         "decoded_path_shape", "decoded_path_shape_iff", "decoded_sliders_representable", "hitobjects_block_accepted_decoded_f17", "f17_needed", "pathLaws_ieee", "decoded_path_shape_ieee",
         "decoded_stored_points_rep", "decoded_repTimingMap_partial", "timing_lines_accepted_decoded", "encoded_file_accepted_decoded", "decoded_repTimingMap_statement_false",
         "decoded_stored_points_rep_ieee", "timing_lines_accepted_decoded_ieee", "svLaws_float",
@@ -111,8 +112,11 @@ class C04(Property):
             "combo offsets 0..7; slider repeats 0..8999; requested length = max(l, 0) of a parsed l within the limit; no custom file on a slider's own samples) is proved for EVERY line (accepted or rejected), carried through the "
             "framing driver for every byte string (objInv_decoded) and through the finaliser (decoded_objOk, with finalizeObjects_samples: the sample point applied to each object). With C14.decoded_stored for the numeric clauses: "
             "every circle / spinner / hold of a decoded map is RepCircle / RepSpinner / RepHold, and every slider RepSlider, in any mode, under NAMED residuals only - codec laws ObjLaws (a THEOREM for the IEEE instances: objLaws_ieee, so "
-            "decoded_circles_representable_ieee has no law left), DurLaws (start + duration representable and recovering the duration; toy instance; REFUTED for IEEE doubles by the sign of a zero only: durLaws_float_false - start +0, end -0), "
-            "CtrlLaws (control-point offsets; toy instance, not instantiated for IEEE); the findings' predicates FileNameResidual.trimmed (F21), SliderResidual.computed (F20); FileNameResidual.noBar (`|` in a circle's file name: RepSampleFile is shared "
+            "decoded_circles_representable_ieee has no law left), DurLaws (start + duration representable and recovering the duration; toy instance; REFUTED for IEEE doubles, and not only by the sign of a zero: Props/C04DecodedObjectsIeee2.lean - "
+            "duration_drifts_float (`256,192,0.09,12,0,0.34`: (0.09 + 0.25) - 0.09 is one ulp below 0.25: finding F25), end_time_over_limit_float (start -1.0000007152557373, end 2147483647: the written end time exceeds the "
+            "limit: finding F26), durLawsZ_float_false; TRUE for whole-number times: durLawsOn_float, decoded_spinners_representable_ieee_int / decoded_holds_representable_ieee_int with no law left; and for ANY times "
+            "acceptance alone holds under EndOk (start + duration <= limit): hitobjects_block_accepted_decoded_ieee), "
+            "CtrlLaws (control-point offsets; toy instance; for IEEE a theorem in its global form: ctrlLaws_float, from exact f32 add / sub on integers below 2^23); the findings' predicates FileNameResidual.trimmed (F21), SliderResidual.computed (F20); FileNameResidual.noBar (`|` in a circle's file name: RepSampleFile is shared "
             "with sliders; the line is accepted anyway: objBar_accepted_anyway); and SliderResidual.shape = the type / shape half of RepPath (where F17 lives) - assumed in this file and DERIVED from convert_path_str in Props/C04DecodedPaths.lean "
             "(decoded_path_shape: for every decoded slider PathShapeOk holds EXACTLY when the decidable predicate F17Free does; pathLaws_ieee: the two laws it needs - == on integer-valued f32 is equality, no letter-leading text is a number - are theorems of the "
             "IEEE instances; f17_needed: three decoded lines outside F17Free, kernel-evaluated on the toy codec and on Float / Float32), so decoded_sliders_representable has the residuals F17Free and F20 only; the harness oracles use the transcription of F17Free. F18 does not enter. "
